@@ -4,6 +4,7 @@ import (
 	"go/ast"
 	"go/constant"
 	"go/token"
+	"go/types"
 
 	"golang.org/x/tools/go/ssa"
 
@@ -11,24 +12,83 @@ import (
 )
 
 // inspectBinary reports integer literals compared for (in)equality with an indexed value.
-func inspectBinary(file *ast.File, visit func(pos token.Pos, lit string)) {
+// inspectBinary visits every ==/!= comparison of a byte-typed operand (variable or element) with an
+// integer constant expression (a literal, a named constant, a conversion of either), by value.
+func inspectBinary(file *ast.File, all []*ast.File, info *types.Info, visit func(pos token.Pos, val int64)) {
 	ast.Inspect(file, func(n ast.Node) bool {
 		be, ok := n.(*ast.BinaryExpr)
 		if !ok || (be.Op != token.EQL && be.Op != token.NEQ) {
 			return true
 		}
 		for _, pair := range [][2]ast.Expr{{be.X, be.Y}, {be.Y, be.X}} {
-			lit, isLit := pair[1].(*ast.BasicLit)
-			if !isLit || lit.Kind != token.INT {
+			tv, ok := info.Types[pair[1]]
+			if !ok || tv.Value == nil || tv.Value.Kind() != constant.Int {
 				continue
 			}
-			switch pair[0].(type) {
+			if otv, ok := info.Types[pair[0]]; !ok || otv.Value != nil {
+				continue
+			} else if b, isBasic := otv.Type.Underlying().(*types.Basic); !isBasic || b.Kind() != types.Uint8 {
+				continue
+			}
+			if isCharConst(all, info, pair[1]) {
+				continue // a text character, not a nucleotide code
+			}
+			switch unparenExpr(pair[0]).(type) {
 			case *ast.IndexExpr, *ast.Ident:
-				visit(lit.Pos(), lit.Value)
+				if v, exact := constant.Int64Val(tv.Value); exact {
+					visit(pair[1].Pos(), v)
+				}
 			}
 		}
 		return true
 	})
+}
+
+// isCharConst: a character literal, or a constant declared as one (conversions looked through).
+func isCharConst(files []*ast.File, info *types.Info, e ast.Expr) bool {
+	e = unparenExpr(e)
+	switch e := e.(type) {
+	case *ast.BasicLit:
+		return e.Kind == token.CHAR
+	case *ast.CallExpr: // byte('x')
+		if len(e.Args) == 1 {
+			if tv, ok := info.Types[e.Fun]; ok && tv.IsType() {
+				return isCharConst(files, info, e.Args[0])
+			}
+		}
+	case *ast.Ident:
+		k, ok := info.Uses[e].(*types.Const)
+		if !ok {
+			return false
+		}
+		found := false
+		for _, file := range files {
+			ast.Inspect(file, func(n ast.Node) bool {
+				vs, ok := n.(*ast.ValueSpec)
+				if !ok {
+					return true
+				}
+				for i, name := range vs.Names {
+					if info.Defs[name] == k && i < len(vs.Values) {
+						found = isCharConst(files, info, vs.Values[i])
+					}
+				}
+				return true
+			})
+		}
+		return found
+	}
+	return false
+}
+
+func unparenExpr(e ast.Expr) ast.Expr {
+	for {
+		p, ok := e.(*ast.ParenExpr)
+		if !ok {
+			return e
+		}
+		e = p.X
+	}
 }
 
 func callsTo(f *ssa.Function, name string) []ssa.CallInstruction {
@@ -74,7 +134,7 @@ func c11Structure(c *core.Ctx) {
 	}
 	if f := c.SSAFunc("pkg/sam", "Variants"); f != nil {
 		ok := false
-		for _, call := range callsTo(f, "blockToPairwiseAlignment") {
+		for _, call := range callsTo(f, currentName(c, "pkg/sam", "blockToPairwiseAlignment")) {
 			args := call.Common().Args
 			if k, isC := args[len(args)-1].(*ssa.Const); isC && k.Value != nil && !constant.BoolVal(k.Value) {
 				ok = true
